@@ -85,12 +85,12 @@ func init() {
 		"fmt.Errorf":            extErrorf,
 		"fmt.Sprint":            extSprint,
 		"fmt.Sprintln":          extSprint,
-		"fmt.Fprintf":           extNop,
-		"fmt.Fprint":            extNop,
-		"fmt.Fprintln":          extNop,
-		"fmt.Printf":            extNop,
-		"fmt.Println":           extNop,
-		"fmt.Print":             extNop,
+		"fmt.Fprintf":           extFprintf,
+		"fmt.Fprint":            extFprint,
+		"fmt.Fprintln":          extFprint,
+		"fmt.Printf":            extPrintNothing,
+		"fmt.Println":           extPrintNothing,
+		"fmt.Print":             extPrintNothing,
 		"log.Printf":            extNop,
 		"log.Println":           extNop,
 		"log.Print":             extNop,
@@ -189,6 +189,22 @@ func init() {
 			return p
 		},
 		"encoding/json.freeScanner": extNop,
+
+		// GODEBUG settings: always the default
+		"(*internal/godebug.Setting).Value":         func(fr *frame, args []value) value { return "" },
+		"(*internal/godebug.Setting).IncNonDefault": extNop,
+		"(*internal/godebug.Setting).Name":          func(fr *frame, args []value) value { return "" },
+
+		// go:linkname forwarders
+		"mime/multipart.readMIMEHeader": func(fr *frame, args []value) value {
+			return fr.i.callByName(fr, "net/textproto", "readMIMEHeader", args)
+		},
+
+		// crypto/rand is not interpretable: the multipart boundary is a fixed
+		// 60-digit string (stub; inputs within the bounds cannot contain it)
+		"mime/multipart.randomBoundary": func(fr *frame, args []value) value {
+			return "5f0c1a2b3d4e5f60718293a4b5c6d7e8f90a1b2c3d4e5f60718293a4b5c6"
+		},
 
 		// strconv fast paths on concrete arguments
 		"strconv.FormatFloat": extUseBodyIfSym(func(fr *frame, args []value) value {
@@ -382,6 +398,36 @@ func extSprintf(fr *frame, args []value) value {
 
 func extErrorf(fr *frame, args []value) value {
 	return iface{errorType, fr.i.formatOpaque(args[0], args[1])}
+}
+
+func extPrintNothing(fr *frame, args []value) value { return tuple{0, iface{}} }
+
+// writeTo calls w.Write(p) on an io.Writer interface value.
+func (i *interpreter) writeTo(fr *frame, w value, text string) value {
+	itf := w.(iface)
+	if itf.t == nil {
+		panic(runtimePanic{"runtime error: invalid memory address or nil pointer dereference (nil io.Writer)"})
+	}
+	mset := i.prog.MethodSets.MethodSet(itf.t)
+	for k := 0; k < mset.Len(); k++ {
+		if mset.At(k).Obj().Name() == "Write" {
+			fn := i.prog.MethodValue(mset.At(k))
+			return call(i, fr, token.NoPos, fn, []value{itf.v, bytesWithCap(strToBytes(text))})
+		}
+	}
+	panic(engineErrorf("writeTo: %s has no Write method", itf.t))
+}
+
+func extFprintf(fr *frame, args []value) value {
+	return fr.i.writeTo(fr, args[0], fr.i.formatOpaque(args[1], args[2]))
+}
+
+func extFprint(fr *frame, args []value) value {
+	text := extSprint(fr, args[1:]).(string)
+	if fr.fn.Name() == "Fprintln" {
+		text += "\n"
+	}
+	return fr.i.writeTo(fr, args[0], text)
 }
 
 func extSprint(fr *frame, args []value) value {
